@@ -195,6 +195,7 @@ static void nest_run(void) {
       for (size_t di = 0; di < nd; di++, unit++) {
         if (LIM >= 65536 && !O.thorough && (leaf == 2 || leaf == 4 || kind == CH_TAG_WIDE || kind == CH_INDEFMAP_KEY || kind == CH_DEFMAP_KEY)) continue;
         if (unit % O.nshards != O.shard) continue;
+        if (kind == CH_DEEP_THEN_SIBLING && (LIM < 2 || depths[di] < 2)) continue; /* the sibling container itself opens level 2 */
         size_t depth = depths[di];
         /* with a chunked string innermost the containers supply depth-1 levels */
         if ((leaf == 1 || leaf == 2) && depth > 0) depth -= 1;
